@@ -69,15 +69,20 @@ def build_qcow2(version=3, size=10 * MI, bf_offset=0, bf_size=0, features=0,
     body = rnd(fill, max(0, length - 104))
     data = (hdr + ext + body)[:length]
     unsafe = set()
+    murky = False
     if bf_offset != 0:
         unsafe.add('backing_file')
     if version not in (2, 3):
         unsafe.add('version')
-    if not (version == 2 and v2_tail_zero):
+    if version == 3:
         if features & (1 << QCOW2_DATAFILE_BIT):
             unsafe.add('data_file')
-        if version == 3 and features >> 4:
+        if features >> 4:
             unsafe.add('unknown_features')
+    elif not (version == 2 and v2_tail_zero) and features:
+        # a feature word on a header version that has none: the statement
+        # does not say how bytes 72..79 of such a header are to be read
+        murky = True
     complete = length >= 512
     return Img('qcow2', data,
                dict(version=version, size=size, bf_offset=bf_offset,
@@ -86,7 +91,9 @@ def build_qcow2(version=3, size=10 * MI, bf_offset=0, bf_size=0, features=0,
                     v2_tail_zero=v2_tail_zero),
                vsize=size, boundaries=(4, 8, 16, 24, 32, 72, 80, 104, 512),
                size_field_end=32, struct_end=512, unsafe=unsafe,
-               clean=(not unsafe) and complete)
+               clean=(not unsafe) and complete and not murky,
+               note='feature word on a v%d header' % version if murky
+               else None)
 
 
 # ----------------------------------------------------------------------- qed
@@ -298,7 +305,15 @@ def classify_vmdk_lines(lines):
         unsafe.add('unknown_line')
     ok_types = ('"monolithicsparse"', '"streamoptimized"')
     if ctype is None or ctype.lower() not in ok_types:
-        unsafe.add('create_type')
+        stray = [raw for raw in lines if 'createtype="' in raw.lower() and
+                 not raw.strip().lower().startswith('createtype="')]
+        if stray:
+            # createType="..." appears only inside a comment / other line:
+            # qemu and the inspector both search the text for it; the
+            # statement does not say which reading is right
+            unsafe.add('?type')
+        else:
+            unsafe.add('create_type')
     if extents == 0:
         unsafe.add('no_extent')
     return unsafe
@@ -335,6 +350,8 @@ def build_vmdk(lines=VMDK_DEFAULT_LINES, version=1, capacity=20480,
     buf[start:start + len(desc)] = desc
     buf.extend(rnd(fill, grain_data))
     unsafe = set(classify_vmdk_lines(lines)) if desc_raw is None else set()
+    murky = '?type' in unsafe
+    unsafe.discard('?type')
     if footer:
         fo = dict(footer_over or {})
         fm = vmdk_marker(fo.pop('fm_val', 1), fo.pop('fm_size', 0),
@@ -374,7 +391,8 @@ def build_vmdk(lines=VMDK_DEFAULT_LINES, version=1, capacity=20480,
                vsize=capacity * 512, boundaries=bounds, size_field_end=20,
                struct_end=desc_end, unsafe=unsafe,
                clean=(not unsafe) and truncate is None and desc_raw is None
-               and 1 <= dnum <= 2047)
+               and 1 <= dnum <= 2047 and not murky,
+               note='createType only inside another line' if murky else None)
 
 
 # ----------------------------------------------------------------------- vdi
